@@ -286,11 +286,76 @@ func enumPaths(fn *ssa.Function, to *ssa.BasicBlock, limit int) (paths []cfgPath
 			paths = append(paths, p)
 			return
 		}
-		for _, s := range b.Succs {
+		succs := b.Succs
+		// a block branching on a phi of boolean constants: the incoming edge decides
+		if iff, isIf := b.Instrs[len(b.Instrs)-1].(*ssa.If); isIf && len(cur) >= 2 {
+			cond, neg := iff.Cond, false
+			for {
+				u, isU := cond.(*ssa.UnOp)
+				if !isU || u.Op != token.NOT {
+					break
+				}
+				cond, neg = u.X, !neg
+			}
+			if phi, vals, isPhi := phiBoolConsts(cond); isPhi && phi.Block() == b {
+				from := cur[len(cur)-2]
+				for k, pr := range b.Preds {
+					if pr == from {
+						if vals[k] != neg {
+							succs = []*ssa.BasicBlock{b.Succs[0]}
+						} else {
+							succs = []*ssa.BasicBlock{b.Succs[1]}
+						}
+					}
+				}
+			}
+		}
+		for _, s := range succs {
 			walk(s)
 		}
 	}
 	walk(fn.Blocks[0])
+	return paths, ok
+}
+
+// enumPathsBetween lists the acyclic paths from block `from` to block `to` (both included).
+func enumPathsBetween(fn *ssa.Function, from, to *ssa.BasicBlock, limit int) (paths []cfgPath, ok bool) {
+	ok = true
+	var cur []*ssa.BasicBlock
+	on := map[*ssa.BasicBlock]bool{}
+	var walk func(b *ssa.BasicBlock)
+	walk = func(b *ssa.BasicBlock) {
+		if !ok {
+			return
+		}
+		if b == to && len(cur) > 0 {
+			if len(paths) >= limit {
+				ok = false
+				return
+			}
+			p := cfgPath{Blocks: append(append([]*ssa.BasicBlock{}, cur...), b), Facts: map[condFact]bool{}}
+			for k := 0; k+1 < len(p.Blocks); k++ {
+				pr, nx := p.Blocks[k], p.Blocks[k+1]
+				if iff, isIf := pr.Instrs[len(pr.Instrs)-1].(*ssa.If); isIf && pr.Succs[0] != pr.Succs[1] {
+					addCondFacts(p.Facts, iff.Cond, pr.Succs[0] == nx)
+				}
+			}
+			deriveFacts(p.Facts)
+			paths = append(paths, p)
+			return
+		}
+		if on[b] {
+			return
+		}
+		on[b] = true
+		cur = append(cur, b)
+		for _, s := range b.Succs {
+			walk(s)
+		}
+		cur = cur[:len(cur)-1]
+		on[b] = false
+	}
+	walk(from)
 	return paths, ok
 }
 
